@@ -228,7 +228,10 @@ ProcessChecks3(e, m, p, r, dc, R, n, pecok, acc, xdevs, panicked) ==
       Chk("C02", /\ r.kind = "ok" => pecok
                  /\ ~pecok => (Untouched(e) /\ e.post = e.pre),
           Len(p) >= 1 /\ ~pecok, {}),
-      IF panicked \/ dc.kind = "panic" THEN Skip("C11")
+      (* decoding panicked: C10's business alone.  Decoding returned but processing panicked: processing does *)
+      (* not report what decoding reports - C11 fails as well as C10.                                          *)
+      IF dc.kind = "panic" THEN Skip("C11")
+      ELSE IF panicked THEN Chk("C11", FALSE, TRUE, xdevs)
       ELSE Chk("C11", /\ SameRes(dc, r)
                       /\ n >= 0 => /\ r.kind = "ok" /\ r.type = MT_CONTROL /\ Len(p) >= 10 /\ Rq(p) = 1
                                    /\ n <= e.rbuf_len /\ Len(R) = n /\ e.rtail_diff = << >>
